@@ -57,18 +57,19 @@ def decideTimeLegacy (a : GoArgs) : Option Int :=
     else rustDiv a.time a.movesToGo
   else some a.time
 
-def goScan (white : Bool) : Nat → List String → GoArgs → Except GoResult GoArgs
-  | 0, _, a => .ok a
-  | _, [], a => .ok a
-  | fuel + 1, arg :: rest, a =>
-    if arg == "" then goScan white fuel rest a else
-    let value (k : Int → GoArgs) : Except GoResult GoArgs :=
+/-- the argument scan; `msgs` collects the "Illegal 'go' command" lines printed on the way -/
+def goScan (white : Bool) : Nat → List String → GoArgs → List String → Except (List String × GoResult) (List String × GoArgs)
+  | 0, _, a, msgs => .ok (msgs, a)
+  | _, [], a, msgs => .ok (msgs, a)
+  | fuel + 1, arg :: rest, a, msgs =>
+    if arg == "" then goScan white fuel rest a msgs else
+    let value (k : Int → GoArgs) : Except (List String × GoResult) (List String × GoArgs) :=
       match rest with
-      | [] => .error .panic
+      | [] => .error (msgs, .panic)
       | v :: rest' => match parseRustInt v i64lo i64hi with
-        | none => .error .panic
-        | some n => goScan white fuel rest' (k n)
-    let skip : Except GoResult GoArgs := goScan white fuel (rest.drop 1) a
+        | none => .error (msgs, .panic)
+        | some n => goScan white fuel rest' (k n) msgs
+    let skip : Except (List String × GoResult) (List String × GoArgs) := goScan white fuel (rest.drop 1) a msgs
     match arg with
     | "binc" => if !white then value (fun n => { a with inc := n }) else skip
     | "winc" => if white then value (fun n => { a with inc := n }) else skip
@@ -78,21 +79,21 @@ def goScan (white : Bool) : Nat → List String → GoArgs → Except GoResult G
     | "movetime" => value (fun n => { a with moveTime := n })
     | "depth" =>
       match rest with
-      | [] => .error .nosearch
+      | [] => .error (msgs, .nosearch)
       | v :: rest' => match parseRustInt v (-128) 127 with
-        | none => .error .nosearch
-        | some n => goScan white fuel rest' { a with depth := n }
-    | "infinite" => goScan white fuel rest a
-    | "random" => .error .nosearch
-    | _ => goScan white fuel rest a     -- prints "Illegal 'go' command" and goes on
+        | none => .error (msgs, .nosearch)
+        | some n => goScan white fuel rest' { a with depth := n } msgs
+    | "infinite" => goScan white fuel rest a msgs
+    | "random" => .error (msgs, .nosearch)      -- random mover: not a search
+    | _ => goScan white fuel rest a (msgs ++ [s!"Illegal 'go' command: '{arg}'"])
 
-/-- `parse_go(args, …)` up to the call of `search` -/
-def parseGo (white : Bool) (args : String) : GoResult :=
+/-- `parse_go(args, …)` up to the call of `search`: the lines printed and what is handed to `search` -/
+def parseGo (white : Bool) (args : String) : List String × GoResult :=
   let toks := args.splitOn " "
-  match goScan white (toks.length + 1) toks {} with
+  match goScan white (toks.length + 1) toks {} [] with
   | .error r => r
-  | .ok a => match decideTime a with
-    | none => .panic
-    | some t => .search a.depth t
+  | .ok (msgs, a) => match decideTime a with
+    | none => (msgs, .panic)
+    | some t => (msgs, .search a.depth t)
 
 end Jence
